@@ -122,6 +122,11 @@ def check_delete_id(ctx, rule2, rule3):
     return is_destroy
 
 
+def cdb(t):
+    """canonical spelling of object-table terms: d.get(k) names the same entry as d[k]"""
+    return re.sub(r'self\.db\.get\((\w+)\)', r'self.db[\1]', t or '')
+
+
 def run(ctx):
     repo = ctx.repo
     ctx.decided = ['C03.1 writers of alive', 'C03.2 who destroys', 'C03.3 annotation', 'C03.4 one alive per id',
@@ -140,17 +145,19 @@ def run(ctx):
     cpaths = paths_of(repo, f_create)
 
     def m_create(a):
-        t = a.text
-        if re.match(r'^\w+ in self\.db$', t):
+        t = cdb(a.text)
+        if re.match(r'^\w+ in self\.db$', t) or re.match(r'^self\.db\[\w+\]$', t):
             return ('present', True)
+        if re.match(r'^self\.db\[\w+\] is None$', t):
+            return ('present', False)
         if re.match(r'^self\.db\[\w+\]\[-1\]\.alive$', t):
             return ('alive', True)
         if re.match(r'^self\.db\[\w+\]\[-1\]\.owned_by_server\(\)$', t):
             return ('server', True)
         if t == "'wl_registry' == type_name":
             return ('registry', True)
-        if t == '2 == obj_id':
-            return ('id2', True)
+        if t == '2 == obj_id' or re.match(r'^2 == self\.db\[obj_id\]\[-1\]\.id$', t):
+            return ('id2', True)        # db[k][-1].id == k by C02.2
         if t == '1 < obj_id':
             return ('valid', True)
         return None
@@ -165,7 +172,7 @@ def run(ctx):
         for e in p.events:
             if is_destroy(e):
                 nd2 += 1
-                ctx.check(bool(re.match(r'^self\.db\[obj_id\]\[-1\]$', norm(e.recv))) and e.argtext(0) == 'time', 'C03.2',
+                ctx.check(bool(re.match(r'^self\.db\[obj_id\]\[-1\]$', cdb(norm(e.recv)))) and e.argtext(0) == 'time', 'C03.2',
                           'create_object:destroy-args', f_create.loc(e.node), 'the previous incarnation is destroyed at the creating message\'s time',
                           'implicit destroy is %s' % e.text[:100])
     ctx.floor('C03.2', nd2, 1, 'implicit destroy in create_object')
@@ -204,7 +211,7 @@ def run(ctx):
             m = m_create(a)
             if m:
                 facts[m[0]] = v if m[1] else not v
-        app = [e for e in p.events if e.kind == 'call' and e.ftext and re.match(r'^self\.db\[\w+\]\.(append|insert|extend)$', e.ftext)]
+        app = [e for e in p.events if e.kind == 'call' and e.ftext and re.match(r'^self\.db\[\w+\]\.(append|insert|extend)$', cdb(e.ftext))]
         if app and facts.get('present') and facts.get('alive'):
             na += 1
             idx = p.events.index(app[0])
